@@ -181,6 +181,14 @@ Proof.
   repeat split; eexists; eexists; (split; [reflexivity|]);
     first [left; vm_compute; reflexivity | right; split; vm_compute; reflexivity].
 Qed.
+(* the float clause on doubles given by bit pattern: 1e10 + ulp (printed with {:e}), 0.1,
+   -0.0, 2^53, the smallest subnormal *)
+Example C10_example_floats :
+  forallb (fun b => match parse_text (write (CNum (Float (f64_of_bits b)))) with
+                    | Ok (CNum (Float y), None) => Z.eqb (f64_bits y) b
+                    | _ => false end)
+    [0x4202a05f20000001; 0x3fb999999999999a; 0x8000000000000000; 0x4340000000000000; 1]%Z = true.
+Proof. vm_compute. reflexivity. Qed.
 Example C10_example_exact :
   exact_wf (BigInt 5) /\ reread (BigInt 5) = Fixnum 5 /\ exact_wf (Rational (-2147483648) 3).
 Proof. repeat split; vm_compute; try reflexivity; discriminate. Qed.
